@@ -9,6 +9,7 @@ from sim.simlib import Sim
 
 ID = 'C06'
 TARGETS = ['SmppVerif.Props.C06']
+THOROUGH_ROUNDS = 3
 RULE = ('SubmitSm values accepted by the constructor, queued one after the other to a bound session: the C03 field space with '
         'values the wire format does not allow (negative and oversized integers that pass validation, NUL / non-ASCII in '
         'C-octet strings, encoding names without codec or without data_coding member, unknown error_handling values, lone '
